@@ -93,6 +93,11 @@ def enumerate_cases(tier, scope):
     singles += [['continue', 1, None, False], ['continue', 1, 'a', True], ['bogus']]
     singles += [['execute', 'F', 1, nowait, no_reply] for nowait in (False, True) for no_reply in (False, True)]
     if scope == 'single':
+        for p in ('memory', 'none'):
+            for prog in ('F', 'X', 'W'):
+                for persist in (False, True):
+                    for nowait in (False, True):
+                        yield {'persister': p, 'loader': 'default', 'via': 'comm', 'load_context': 'none', 'client': 'async', 'ops': [['launch', prog, 1, persist, nowait]]}
         for p in ('memory', 'pickle', 'none'):
             for prog in ('F',):
                 for nowait in (False, True):
@@ -265,6 +270,13 @@ def execute(case):
                 prog, pid, persist = op[1], op[2], op[3]
                 nowait = op[4] if kind == 'launch' else None
                 ident_loader = custom if loader is not None else None
+                try:
+                    process_comms.create_launch_body(classes_by_prog[prog], init_kwargs={'pid': pid}, persist=persist, loader=ident_loader)
+                except Exception as exc:  # noqa: BLE001
+                    if not (prog == 'U' and ident_loader is None):
+                        v('task-body-raised', f'{where}: building the task body with the given loader raised {type(exc).__name__}: {exc}')
+                        hist.append(op)
+                        break
                 if kind == 'create':
                     body = process_comms.create_create_body(classes_by_prog[prog], init_kwargs={'pid': pid}, persist=persist, loader=ident_loader)
                 elif nowait == 'default':
@@ -273,7 +285,14 @@ def execute(case):
                     nowait = True
                 else:
                     body = process_comms.create_launch_body(classes_by_prog[prog], init_kwargs={'pid': pid}, persist=persist, loader=ident_loader, nowait=nowait)
-                fut = send(body)
+                if kind == 'launch' and case.get('client') == 'async' and comm is not None and op[4] != 'default':
+                    # the launch is requested through the coroutine controller instead of a hand-made task body
+                    classes.add('client:controller')
+                    with loop.as_running():
+                        fut = loop.create_task(process_comms.RemoteProcessController(comm).launch_process(classes_by_prog[prog], init_kwargs={'pid': pid}, persist=persist, loader=ident_loader, nowait=nowait))
+                        fut._pv_owned = True
+                else:
+                    fut = send(body)
                 unpersistable = prog == 'U' and persist and persister is not None
                 if unpersistable:
                     # asked to persist a process whose class the persister cannot name: the task fails up front, the
